@@ -72,6 +72,19 @@ def correspond2(ctx, impl, model, family, cases, sd, dd):
         if mo == "outside-limits":
             fam["outside_limits"] += 1
             continue
+        if " xing=" in mo:
+            mo, tail = mo.split(" xing=", 1)
+            xing, cyc = tail.split(" cycles=")
+            fam.setdefault("literal_merging_vs_spec", {}).setdefault(xing, 0)
+            fam["literal_merging_vs_spec"][xing] += 1
+            fam.setdefault("literal_cycles_vs_spec", {}).setdefault(cyc, 0)
+            fam["literal_cycles_vs_spec"][cyc] += 1
+            if xing in ("differ", "fuel") or cyc == "differ":
+                ctx.disagreements += 1
+                ctx.violation({"family": family, "schema": c["schema"], "doc": c["doc"], "model": mo, "xing": xing,
+                               "cycles": cyc,
+                               "what": "the literal model of selection.rs / fragment.rs (MergeXing.v / FragCycles.v) "
+                                       "differs from the specification's rule on this input (model against model)"})
         ctx.note_case(family + " " + c["schema"] + "\n" + c["doc"], True)
         fam["cases"] += 1
         rows.append((c, io, mo))
